@@ -121,6 +121,10 @@ def split_tmpl(t, sep, maxsplit=-1, right=False):
 
 def str_method(it, o, a, args, kw):
     o = simplify(o)
+    if a == "encode":
+        # text stays text in this model; what it was encoded with is remembered for the sink rule
+        World.trace.setdefault("encodings", []).append(args[0] if args else kw.get("encoding", "utf-8"))
+        return o
     if isinstance(o, str) and all(isinstance(x, (str, int, type(None), tuple)) for x in args) and a != "join":
         try:
             return getattr(o, a)(*args, **kw)
@@ -245,6 +249,7 @@ def str_method(it, o, a, args, kw):
     if a == "format":
         raise Unsupported("str.format")
     if a == "encode":
+        World.trace.setdefault("encodings", []).append(args[0] if args else kw.get("encoding", "utf-8"))
         return o
     if a == "isupper" or a == "islower" or a == "isalpha" or a == "isidentifier":
         if isinstance(o, Sym):
@@ -473,16 +478,27 @@ def list_method(it, o, a, args, kw):
     raise Unsupported("list.%s" % a)
 
 
+def _set_add(it, o, x):
+    """set.add honouring a user-defined __eq__ on instances (members equal to one already present are not added)."""
+    if isinstance(x, Inst):
+        eq = next((c.ns["__eq__"] for c in x.cls.mro() if "__eq__" in c.ns), None)
+        if isinstance(eq, Func):
+            for y in o.items:
+                if isinstance(y, Inst) and it.truth(it.call(Bound(eq, x), [y], {})):
+                    return None
+    return o.add(x)
+
+
 def sset_method(it, o, a, args):
     if a == "add":
-        return o.add(args[0])
+        return _set_add(it, o, args[0])
     if a == "clear":
         o.items[:] = []
         o.keys.clear()
         return None
     if a == "update":
         for x in it.iterate(args[0]):
-            o.add(x)
+            _set_add(it, o, x)
         return None
     if a == "discard" or a == "remove":
         k = skey(args[0])
@@ -506,6 +522,15 @@ def b_sorted(it):
         src = xs.items if isinstance(xs, SSet) else it.iterate(xs)
         items = list(src)
         keyed = [(it.call(key, [x], {}) if key is not None else x) for x in items]
+        if isinstance(xs, SSet) and key is not None:
+            # sorted() is stable: members of a set whose keys tie come out in the set's iteration order
+            seen = {}
+            for x, k in zip(items, keyed):
+                kk = skey(k) if is_strlike(k) else repr(k)
+                if kk in seen:
+                    nondeterministic("sorted() over a set with a key on which two members tie (%s)" % (as_tmpl(k).text() if is_strlike(k) else kk))
+                    break
+                seen[kk] = x
         if all(isinstance(k, (str, int)) for k in keyed) and len({type(k) for k in keyed}) <= 1:
             order = sorted(range(len(items)), key=lambda i: keyed[i], reverse=reverse)
             return [items[i] for i in order]
@@ -654,7 +679,7 @@ def make_builtins(it):
     nat("type", lambda o: o.cls if isinstance(o, Inst) else Native(None, type(o).__name__))
     nat("id", lambda o: nondeterministic("id()"))
     nat("hash", lambda o: nondeterministic("hash()"))
-    nat("open", lambda path, mode="r", **kw: FileSink(it, path, mode, kw))
+    nat("open", lambda path, mode="r", **kw: open_file(it, path, mode, **kw))
     nat("property", lambda f: Prop(f))
     B["object"] = UClass("object", [], {})
     B["True"], B["False"], B["None"] = True, False, None
@@ -805,8 +830,8 @@ class PathObj:
             return Native(lambda *xs: PathObj(p_join(self.s, *[x.s if isinstance(x, PathObj) else x for x in xs])), "Path.joinpath")
         if a == "resolve":
             return Native(lambda: self, "Path.resolve")
-        if a == "exists":
-            return Native(lambda: True, "Path.exists")
+        if a in ("exists", "is_file"):
+            return Native(lambda: out_exists(it, self, a), "Path." + a)
         raise Unsupported("Path.%s" % a)
 
 
@@ -817,6 +842,63 @@ def _join(parts):
             out.append("/")
         out.append(as_tmpl(p))
     return simplify(Tmpl(out))
+
+
+def _under_output(p):
+    t = as_tmpl(p.s if isinstance(p, PathObj) else p).text()
+    return t == "/out" or t.startswith("/out/")
+
+
+def out_exists(it, p, what="exists"):
+    """Does the (possibly pre-populated) output directory already hold this path?  Unknown: both are explored, the
+    answer is fixed per path text for one evaluation, and the consultation is recorded."""
+    if not _under_output(p):
+        return True
+    t = as_tmpl(p.s if isinstance(p, PathObj) else p).text()
+    pre = World.trace.setdefault("out_pre", {})
+    if t not in pre:
+        pre[t] = choose("the output directory already holds %s" % t)
+    World.trace.setdefault("consulted_output", []).append("%s(%s)" % (what, t))
+    return pre[t]
+
+
+def out_getsize(it, p):
+    if not out_exists(it, p, "getsize"):
+        raise PyRaise(ExcObj(it.builtins["FileNotFoundError"], [p]))
+    t = as_tmpl(p.s if isinstance(p, PathObj) else p).text()
+    return SymInt("size of the file already at %s" % t, lo=0)
+
+
+class PreFile:
+    """A file of the pre-populated output directory opened for reading: its content is unknown."""
+
+    def __init__(self, it, path, mode):
+        self.path, self.mode = path, mode
+        self.t = as_tmpl(path.s if isinstance(path, PathObj) else path).text()
+
+    def abs_enter(self):
+        return self
+
+    def abs_exit(self):
+        pass
+
+    def abs_getattr(self, it, a):
+        if a in ("read", "readlines", "readline"):
+            World.trace.setdefault("consulted_output", []).append("read(%s)" % self.t)
+            return Native(lambda *x: Sym("content already at %s" % self.t, wild=True), "file." + a)
+        if a == "close":
+            return Native(lambda: None, "file.close")
+        raise Unsupported("file.%s on a file opened for reading" % a)
+
+
+def open_file(it, path, mode="r", **kw):
+    if mode.startswith("r") and "+" not in mode:
+        if _under_output(path):
+            if not out_exists(it, path, "open"):
+                raise PyRaise(ExcObj(it.builtins["FileNotFoundError"], [path]))
+            return PreFile(it, path, mode)
+        raise Unsupported("open(%r, %r): reading files is not modelled" % (path, mode))
+    return FileSink(it, path, mode, kw)
 
 
 def p_join(*parts):
@@ -881,10 +963,12 @@ def stdlib_os(it):
         "dirname": Native(p_dirname, "os.path.dirname"),
         "basename": Native(p_basename, "os.path.basename"),
         "relpath": Native(p_relpath(it), "os.path.relpath"),
-        "exists": Native(lambda p: World.trace.get("fs_exists", True), "os.path.exists"),
+        "exists": Native(lambda p: out_exists(it, p) if _under_output(p) else World.trace.get("fs_exists", True), "os.path.exists"),
+        "getsize": Native(lambda p: out_getsize(it, p), "os.path.getsize"),
+        "getmtime": Native(lambda p: nondeterministic("os.path.getmtime()"), "os.path.getmtime"),
         "abspath": Native(lambda p: p, "os.path.abspath"),
         "normpath": Native(lambda p: p, "os.path.normpath"),
-        "isfile": Native(lambda p: True, "os.path.isfile"),
+        "isfile": Native(lambda p: out_exists(it, p, "isfile"), "os.path.isfile"),
         "isdir": Native(lambda p: True, "os.path.isdir"),
         "splitext": Native(lambda p: tuple(split_tmpl(p, ".", 1, right=True)) if "." in as_tmpl(p).text() else (p, ""), "os.path.splitext"),
     })
